@@ -17,6 +17,7 @@ def jobs(pid, tier, seed):
     n = 450 if tier == "quick" else 9000
     out = [{"kind": "cfg", "seed": seed * 1000003 + i, "nvar": 4 if tier == "quick" else len(VARIANTS)} for i in range(n)]
     out += [{"kind": "list", "seed": seed * 1000003 + 500000 + i} for i in range(n)]
+    out += [{"kind": "bulk_list", "n": nn, "allow_list": a} for nn in (1010, 1200) for a in (1, 0)]
     return out
 
 
@@ -34,6 +35,9 @@ def observe(hist, cfg, seed):
 
 
 def run_job(pid, job, acc):
+    if job["kind"] == "bulk_list":
+        from .histcheck import run_bulk_list
+        return run_bulk_list(pid, job, acc)
     s = job["seed"]
     hist = generate(s, **GEN)
     if job["kind"] == "list":
@@ -72,6 +76,10 @@ def run_job(pid, job, acc):
 
 
 def replay(pid, rep):
+    if rep.get("kind") == "bulk_list":
+        acc = Acc(pid)
+        run_job(pid, rep["job"], acc)
+        return acc
     if rep.get("kind") == "cfg":
         acc = Acc(pid)
         s = rep["seed"]
